@@ -705,5 +705,94 @@ example :
        (match stepB b .worker noO with | .ok _ => true | _ => false)
      | _ => false) = true := by decide
 
+/-- the hypotheses of `C18_layerB_get_returns` are satisfiable, and its conclusion is what the model does: key 1 is in
+    the store; client 1 has issued `get(1)` (three own actions to go); in a schedule in which other threads act in
+    between (a clock move, client 0 issuing and starting a `delete(1)`) its third own action returns the value -/
+example :
+    (match runB (BState.init cfgQ1 0 [1, 2, 3, 4] 3)
+        (call 0 (.putW 1 100 3 none) 4 ++ workerN 6 ++ [(.issue 1 (.get 1), noO)]) with
+     | .ok b =>
+       (match b.cl[1]? with | some pc => pc.getSteps == 3 | none => false) &&
+       (let l : List (Act × Oracle) :=
+          [(.client 1, noO), (.advance 1, noO), (.issue 0 (.delete 1), noO), (.client 1, noO), (.client 0, noO),
+           (.client 1, { pool := [0] })]
+        decide (ownActs 1 l = 3) &&
+        (match runB b l with
+         | .ok b' =>
+           (match b'.cl[1]?, b'.res[1]? with
+            | some CPc.idle, some [Out.value (some 100)] => true
+            | _, _ => false)
+         | _ => false))
+     | _ => false) = true := by decide
+
+/-- the hypotheses of `C18_layerB_put_returns` are satisfiable: in the state of `C18_layerB_wait_chain_witness` client 1
+    stands at `cmd.send` (one own action to go) and is blocked; once the sweeper has released `weight_used`, the worker
+    has finished its put and has taken the next command, the send is enabled and the call returns an acknowledgement -/
+example :
+    (match runB (BState.init cfgQ1 0 [1, 2, 3, 4] 3) chainRunA with
+     | .ok b =>
+       (match b.cl[1]? with | some pc => pc.putSteps == 1 | none => false) &&
+       (match stepB b (.client 1) noO with | .error _ => true | _ => false) &&
+       (let l : List (Act × Oracle) := [(.sweeper none, noO)] ++ workerN 5 ++ [(.client 1, noO)]
+        decide (ownActs 1 l = 1) &&
+        (match runB b l with
+         | .ok b' =>
+           (match b'.cl[1]?, b'.res[1]? with
+            | some CPc.idle, some [Out.ack _ Status.pending] => true
+            | _, _ => false)
+         | _ => false))
+     | _ => false) = true := by decide
+
+/-! ### the hypothesis `0 < cmdCap` is needed -/
+
+/-- a command queue of capacity 0 (the crate's builder refuses it: `command_buffer_size > 0`) -/
+def cfgQ0 : Cfg := { maxWeight := 10, shards := 1, cmdCap := 0, poolSize := 1, bufSize := 2, counters := 2 }
+
+def stuckFacts (b : BState) : Bool :=
+  decide (¬ Quiescent b) &&
+  (match b.cl[0]? with | some pc => pc.sendsCmd | none => false) &&
+  decide (b.g.worker ≠ .dead) && decide (b.g.queue.length ≥ b.g.cfg.cmdCap) && decide (b.cl.length = 1) &&
+  b.w.atRest && decide (b.g.queue = []) && decide (b.g.bufq = []) && b.sw.atBegin
+
+/-- **Without `0 < cmdCap` the global statement is false of the model** (a degenerate configuration, not a defect of
+    the crate: its builder asserts `command_buffer_size > 0`, and a crossbeam `bounded(0)` channel is a rendezvous
+    channel, not one that never accepts): with `cmdCap = 0` the model's `cmd.send` is never enabled, so after the three
+    first actions of a put the only client stands at `cmd.send` for ever — the state is reachable, not quiescent,
+    and NO internal action is enabled for any oracle. -/
+theorem C18_layerB_no_deadlock_needs_cmdCap :
+    ∃ b, Reach cfgQ0 0 [1, 2, 3, 4] 1 b ∧ ¬ Quiescent b ∧
+      ∀ (a : Act) (o : Oracle) (r : BState × Oracle), a.isInternal b = true → stepB b a o ≠ .ok r := by
+  have hrun : ∃ b, runB (BState.init cfgQ0 0 [1, 2, 3, 4] 1) (call 0 (.putW 1 100 3 none) 3) = .ok b ∧
+      stuckFacts b = true := by
+    refine ⟨_, rfl, ?_⟩
+    decide
+  obtain ⟨b, hb, hf⟩ := hrun
+  simp only [stuckFacts, Bool.and_eq_true, decide_eq_true_eq] at hf
+  obtain ⟨⟨⟨⟨⟨⟨⟨⟨h1, h2⟩, h3⟩, h4⟩, h5⟩, h6⟩, h7⟩, h8⟩, h9⟩ := hf
+  refine ⟨b, reach_runB _ (.init []) hb, h1, ?_⟩
+  intro a o r hint hstep
+  cases a with
+  | issue i q => simp [Act.isInternal] at hint
+  | advance d => simp [Act.isInternal] at hint
+  | sweeper v => simp [Act.isInternal, h9] at hint
+  | worker =>
+    refine no_work_blocked (t := .worker) (fun hw => hw.2 h6 h7) (by simp) ⟨none, o, r, hstep⟩
+  | consumer =>
+    refine no_work_blocked (t := .consumer) (fun hw => hw.2 h8) (by simp) ⟨none, o, r, hstep⟩
+  | client i =>
+    cases i with
+    | zero =>
+      cases hc : b.cl[0]? with
+      | none => simp [hc] at h2
+      | some pc =>
+        simp only [hc] at h2
+        exact waitsFor_blocked (.cmdRoom 0 pc hc h2 h3 h4) ⟨none, o, r, hstep⟩
+    | succ j =>
+      have hnone : b.cl[j + 1]? = none := List.getElem?_eq_none (by omega)
+      refine no_work_blocked (t := .client (j + 1)) ?_ (by simp) ⟨none, o, r, hstep⟩
+      rintro ⟨pc, hpc, _⟩
+      rw [hnone] at hpc
+      cases hpc
+
 end B
 end Cached
